@@ -16,6 +16,7 @@ import Generated.Constants
 import Generated.FastDivTab
 import DracoProofs.GeneratedCore
 import DracoProofs.GeneratedBytes
+import DracoProofs.GeneratedBits
 /-
   C17 — "Every primitive writer/reader pair of the bitstream layer is an exact inverse for all
   values: variable-length integers of every width and sign, byte-aligned scalars, bit sequences
@@ -411,5 +412,16 @@ theorem source_decodeVarint_is_model (v0 : Int) (bs : List Nat) (hb : ∀ b ∈ 
      | some (v, rest) => DecodeVarintUnsigned_u64 11 1 v0 (bs.map Int.ofNat) = some (true, (v : Int), rest.map Int.ofNat)) :=
   ⟨DecodeVarintUnsigned_u32_eq_model v0 bs hb, DecodeVarintUnsigned_u64_eq_model v0 bs hb⟩
 example : Generated.DecodeVarintUnsigned_u32 6 1 0 [172, 2, 9] = some (true, 300, [9]) := by decide
+
+open Generated in
+/-- `ReverseBits32` and `CountOneBits32` (core/bit_utils.h) are the model's `reverseBits32` / `countOneBits32` on every
+    `uint32_t` -/
+theorem source_bitUtils_is_model (n : Nat) (hn : n < 2^32) :
+    ReverseBits32 (n : Int) = (reverseBits32 n : Int) ∧ CountOneBits32 (n : Int) = (countOneBits32 n : Int) :=
+  ⟨ReverseBits32_eq_model n hn, CountOneBits32_eq_model n hn⟩
+example : Generated.ReverseBits32 (1 : Nat) = 2147483648 ∧ Generated.CountOneBits32 (255 : Nat) = 8 := by
+  have := source_bitUtils_is_model 1 (by decide)
+  have h := source_bitUtils_is_model 255 (by decide)
+  exact ⟨by rw [this.1]; decide, by rw [h.2]; decide⟩
 
 end Draco.C17
